@@ -4,6 +4,7 @@ import itertools
 import random
 
 from core import proto
+from . import common
 from .common import case, guarded, rand_weak_order
 
 ID = "C07"
@@ -14,13 +15,19 @@ RULE = ("exhaustive: every profile over alternatives {1..m}, m <= 3, made of 1 o
         "inferred from the ballots. random: m <= 7 (thorough <= 9), arbitrary ids in shuffled insertion order, all four "
         "ordinal types, planted patterns (two alternatives tied in every ballot, an alternative nobody ranks, two "
         "alternatives never ranked together, Condorcet winner / weak winner / cycle, knife-edge margins of +1/0/-1 on "
-        "counts around 2^53 / 2^63 / 2^64 / 10^30), the id 0 in ~20%% of the instances (as planted winner, tied "
+        "counts around 2^53 / 2^63 / 2^64 / 10^30), the id 0 in ~20% of the instances (as planted winner, tied "
         "alternative, never-ranked alternative) and exhaustively over ids {0,1,2}, multiplicities beyond 2^53 and "
-        "2^64 in ~20%%, and "
+        "2^64 in ~20%, and "
         "the type guards on non-ordinal data_type values; every fifth random instance is written as PrefLib text and "
         "read by OrdinalInstance.parse_str, the others are built by direct field assignment. Observables: the three tables as sorted (a,b,value) lists, "
         "has_condorcet for both flags, borda scores per alternative (missing = 0), order_to_pwg re-read into "
         "(num_alternatives, sorted alternative lines, count line, sorted pair lines). "
+        "Every instance is evaluated twice: with a fresh instance object per function (c07.all) and as a history of 12 "
+        "calls on ONE instance object (c07.history: each function twice, each of them first in some history, 40% of "
+        "the random ones in a shuffled order) where every call is judged against the model of the ORIGINAL profile and "
+        "the instance (multiplicity, orders, num_voters, num_unique_orders, num_alternatives, alternatives_name, "
+        "data_type) must equal a copy taken before the first call; planted: a ballot together with its exact reverse "
+        "(strict and weak, equal and different multiplicities), profiles closed under reversal. "
         "non-trivial = >= 2 alternatives, >= 2 distinct ballots, some multiplicity > 1")
 EXHAUSTIVE = {"quick": "all profiles with 1-2 distinct (possibly tied, possibly incomplete) ballots over m<=3 alternatives, multiplicities<=2",
               "thorough": "same with multiplicities<=3 for m<=3, plus all 1-2 ballot profiles of complete weak orders over m=4"}
@@ -74,9 +81,29 @@ def all_ballots(alts):
                 yield o
 
 
+# histories on ONE instance object: every function of the family twice, each of them first in some history
+HISTORIES = [
+    [1, 0, 4, 5, 2, 3, 1, 0, 4, 5, 2, 3],      # copeland_scores first
+    [2, 3, 1, 0, 4, 5, 5, 4, 0, 1, 3, 2],      # has_condorcet first
+    [4, 5, 0, 1, 2, 3, 4, 5, 0, 1, 2, 3],      # borda_scores first
+    [5, 0, 4, 2, 1, 3, 1, 5, 4, 0, 3, 2],      # order_to_pwg first
+    [0, 1, 0, 4, 5, 2, 3, 1, 4, 5, 3, 2],      # pairwise_scores first
+]
+
+
 def generate(tier, seed):
     rng = random.Random(1000003 * seed + 7)
     out = []
+    count = [0]
+
+    def add(pl, seq=None, **tags):
+        """the instance with a fresh object per function (c07.all) and as a history on one object (c07.history)"""
+        out.append(case("c07.all", pl, **tags))
+        if seq is None:
+            seq = HISTORIES[count[0] % len(HISTORIES)]
+            count[0] += 1
+        out.append(case("c07.history", [pl, seq], **tags))
+
     # ---- exhaustive
     kmax = 2 if tier == "quick" else 3
     for m in (2, 3):
@@ -84,30 +111,35 @@ def generate(tier, seed):
         bal = list(all_ballots(alts))
         for o in bal:
             for k in range(1, kmax + 1):
-                out.append(case("c07.all", payload(alts, [(o, k)]), m=m, exh=1))
+                add(payload(alts, [(o, k)]), m=m, exh=1)
         for o1, o2 in itertools.permutations(bal, 2):
             for k1 in range(1, kmax + 1):
                 for k2 in range(1, kmax + 1):
-                    out.append(case("c07.all", payload(alts, [(o1, k1), (o2, k2)]), m=m, exh=1))
+                    add(payload(alts, [(o1, k1), (o2, k2)]), m=m, exh=1)
     # the same range over the ids {0,1,2} (0 is falsy in Python), multiplicity 1
     alts = [0, 1, 2]
     bal = list(all_ballots(alts))
     for o in bal:
-        out.append(case("c07.all", payload(alts, [(o, 1)]), m=3, exh=1, zero="exh"))
+        add(payload(alts, [(o, 1)]), m=3, exh=1, zero="exh")
     for o1, o2 in itertools.permutations(bal, 2):
-        out.append(case("c07.all", payload(alts, [(o1, 1), (o2, 1)]), m=3, exh=1, zero="exh"))
+        add(payload(alts, [(o1, 1), (o2, 1)]), m=3, exh=1, zero="exh")
     if tier != "quick":
         alts = [1, 2, 3, 4]
         bal = [o for o in all_ballots(alts) if sum(len(c) for c in o) == 4]
         for o in bal:
-            out.append(case("c07.all", payload(alts, [(o, 2)]), m=4, exh=1))
+            add(payload(alts, [(o, 2)]), m=4, exh=1)
         for o1, o2 in itertools.permutations(bal, 2):
-            out.append(case("c07.all", payload(alts, [(o1, 1), (o2, 2)]), m=4, exh=1))
+            add(payload(alts, [(o1, 1), (o2, 2)]), m=4, exh=1)
     # ---- random
     nrand = 1500 if tier == "quick" else 20000
     mmax = 7 if tier == "quick" else 9
     for idx in range(nrand):
-        out.append(random_case(rng, idx, mmax))
+        c = random_case(rng, idx, mmax)
+        seq = None
+        if rng.random() < 0.4:
+            seq = [0, 1, 2, 3, 4, 5] * 2
+            rng.shuffle(seq)
+        add(c["payload"], seq, **c["tags"])
     return out
 
 
@@ -136,7 +168,7 @@ def random_case(rng, idx, mmax):
     # first of the tied pair, alts[1] the second of the tied pair, alts[-1] the alternative nobody ranks
     kind = rng.choice(["soc", "soi", "toc", "toi", "toi", "toc"])
     pattern = rng.choice(["none", "tied_pair", "unranked", "apart", "winner", "weak_winner", "cycle", "cycle", "none",
-                          "knife", "knife"])
+                          "knife", "knife", "reversed", "reversed", "palindrome"])
     zero = ""
     if rng.random() < 0.2 or 0 in alts:
         if 0 not in alts:
@@ -199,6 +231,17 @@ def random_case(rng, idx, mmax):
             o = rand_weak_order(rng, pool, p_tie, complete=complete)
         if o and o not in orders:
             orders.append(o)
+    rev_of = lambda o: o[::-1]
+    if pattern == "reversed":
+        # a ballot together with its exact reverse (classes kept, their order reversed), possibly a second such pair
+        for o in [b for b in orders if len(b) >= 2][: rng.choice([1, 1, 2])]:
+            if rev_of(o) not in orders:
+                orders.insert(rng.randint(orders.index(o) + 1, len(orders)), rev_of(o))
+    elif pattern == "palindrome":
+        # profile closed under reversal
+        for o in list(orders):
+            if len(o) >= 2 and rev_of(o) not in orders:
+                orders.insert(rng.randint(0, len(orders)), rev_of(o))
     if pattern == "cycle" and rng.random() < 0.7:
         mult = [rng.choice([1, 1, 2, 3, 10 ** 12])] * len(orders)
     elif pattern == "knife" and len(orders) == 2:
@@ -212,6 +255,16 @@ def random_case(rng, idx, mmax):
         mult = [rng.choice(pool_m) for _ in orders]
     else:
         mult = [rng.randint(1, 4) for _ in orders]
+    if pattern in ("reversed", "palindrome"):
+        # equal multiplicities (an "only the surplus counts" shortcut would leave 0 voters) or different ones
+        eq = rng.random() < (0.4 if pattern == "reversed" else 0.7)
+        for a_i, o in enumerate(orders):
+            if rev_of(o) in orders and orders.index(rev_of(o)) > a_i:
+                b_i = orders.index(rev_of(o))
+                if eq:
+                    mult[b_i] = mult[a_i]
+                elif mult[b_i] == mult[a_i]:
+                    mult[b_i] = mult[a_i] + rng.choice([1, 2, 5])
     prof = list(zip(orders, mult))
     dt = infer_dt(alts, prof)
     r = rng.random()
@@ -310,10 +363,45 @@ def _wrap(r, f):
     return r
 
 
+def _snapshot(inst):
+    return common.snapshot(inst)
+
+
+def _snap_diff(before, after):
+    return common.snap_diff(before, after)
+
+
+def _history(pl, seq, via_parser):
+    """all calls of seq on ONE instance object; the instance is compared with a copy taken before after every call"""
+    from preflibtools.properties import pairwisecomparisons as P
+    from preflibtools.instances.convert import order_to_pwg
+    m = len(pl[0])
+    bl = lambda v: 1 if v is True else (0 if v is False else {"bad": repr(v)})
+    fns = [(lambda i: guarded(P.pairwise_scores, i), _table),
+           (lambda i: guarded(P.copeland_scores, i), _table),
+           (lambda i: guarded(P.has_condorcet, i), bl),
+           (lambda i: guarded(P.has_condorcet, i, weak_condorcet=True), bl),
+           (lambda i: guarded(P.borda_scores, i), _borda),
+           (lambda i: guarded(order_to_pwg, i), lambda s: _parse_pwg(s, m))]
+    inst = (build_via_parser if via_parser else build)(pl)
+    before = _snapshot(inst)
+    results, mutated = [], None
+    for pos, code in enumerate(seq):
+        call, canon = fns[code]
+        results.append(_wrap(call(inst), canon))
+        if mutated is None:
+            d = _snap_diff(before, _snapshot(inst))
+            if d:
+                mutated = [pos, code, proto.text(d[:300])]
+    return {"results": results, "mutated": mutated}
+
+
 def impl(c):
     from preflibtools.properties import pairwisecomparisons as P
     from preflibtools.instances.convert import order_to_pwg
     op, pl = c["op"], c["payload"]
+    if op == "c07.history":
+        return _history(pl[0], pl[1], c["tags"].get("parse"))
     if op == "c07.condorcet":
         inst = build(pl[0])
         return _wrap(guarded(P.has_condorcet, inst, weak_condorcet=bool(pl[1])), lambda v: 1 if v is True else (0 if v is False else {"bad": repr(v)}))
@@ -383,9 +471,29 @@ def _cmp(key, alts, r, m):
     return "unknown key"
 
 
+def oracle_requests(c, r):
+    if c["op"] == "c07.history":          # the model of the ORIGINAL profile judges every call of the history
+        return [("c07.all", c["payload"][0])]
+    return [(c["op"], c["payload"])]
+
+
 def judge(c, r, mres):
     m = mres[0]
     op = c["op"]
+    if op == "c07.history":
+        pl, seq = c["payload"]
+        alts = [a for a, _ in pl[0]]
+        for pos, (code, res) in enumerate(zip(seq, r["results"])):
+            why = _cmp(KEYS[code], alts, res, m[code])
+            if why:
+                return {"kind": "mismatch", "theorem": THEOREM[KEYS[code]],
+                        "reason": "call %d of the history %s on one instance object: %s"
+                                  % (pos + 1, [KEYS[x] for x in seq], why)}
+        if r["mutated"]:
+            pos, code, d = r["mutated"]
+            return {"kind": "mismatch", "theorem": "tables_regrouping (the functions read the profile, they do not own it)",
+                    "reason": "the instance was modified by call %d (%s): %s" % (pos + 1, KEYS[code], proto.untext(d))}
+        return None
     if op == "c07.all":
         alts = [a for a, _ in c["payload"][0]]
         for k, mk in zip(KEYS, m):
@@ -406,7 +514,7 @@ def judge(c, r, mres):
 
 
 def _inst_pl(c):
-    return c["payload"][0] if c["op"] == "c07.condorcet" else c["payload"]
+    return c["payload"][0] if c["op"] in ("c07.condorcet", "c07.history") else c["payload"]
 
 
 def nontrivial(c, r, m):
@@ -437,6 +545,20 @@ def stats(c, r, m):
         out.append("multiplicity > 2**53" if mx < 2 ** 63 else "multiplicity >= 2**63")
     if c["tags"].get("pattern") == "knife" and len(mult) == 2 and mult[0][1] > 2 ** 53:
         out.append("knife-edge margin %+d beyond 2**53" % (mult[0][1] - mult[1][1]))
+    if c["op"] == "c07.history":
+        out.append("history on one instance object, first call %s" % KEYS[c["payload"][1][0]])
+    elif c["op"] == "c07.all":
+        out.append("fresh instance object per function")
+    ol = [o for o, _ in mult]
+    pairs = [(i, ol.index(o[::-1])) for i, o in enumerate(ol) if len(o) >= 2 and o[::-1] in ol]
+    if pairs:
+        out.append("profile has a ballot and its exact reverse (%s)" % ("weak" if dt in (2, 3) else "strict"))
+        if any(mult[i][1] == mult[j][1] for i, j in pairs):
+            out.append("reversed pair with equal multiplicities")
+        if any(mult[i][1] != mult[j][1] for i, j in pairs):
+            out.append("reversed pair with different multiplicities")
+        if all(len(o) < 2 or (o[::-1] in ol and mult[i][1] == mult[ol.index(o[::-1])][1]) for i, o in enumerate(ol)):
+            out.append("palindromic profile (closed under reversal, equal multiplicities)")
     ranked = {a for o, _ in mult for cl in o for a in cl}
     if len(ranked) < len(alts):
         out.append("has an alternative nobody ranks")
@@ -468,18 +590,25 @@ def describe(c):
          "num_voters": nv, "multiplicity (in insertion order)": [[o, k] for o, k in mult], "data_type": DT[min(dt, 6)]}
     if c["op"] == "c07.condorcet":
         d["weak_condorcet"] = bool(c["payload"][1])
+    if c["op"] == "c07.history":
+        d["calls on one instance object, in this order"] = [KEYS[x] for x in c["payload"][1]]
     return d
 
 
 def _rebuild(c, an, mult, dt):
     pl = [an, len(an), sum(k for _, k in mult), mult, dt]
-    if c["op"] == "c07.condorcet":
+    if c["op"] in ("c07.condorcet", "c07.history"):
         return dict(c, payload=[pl, c["payload"][1]])
     return dict(c, payload=pl)
 
 
 def shrink(c):
     an, na, nv, mult, dt = _inst_pl(c)
+    if c["op"] == "c07.history":
+        seq = c["payload"][1]
+        for i in range(len(seq)):
+            if len(seq) > 1:
+                yield dict(c, payload=[c["payload"][0], seq[:i] + seq[i + 1:]])
     for i in range(len(mult)):
         if len(mult) > 1:
             yield _rebuild(c, an, mult[:i] + mult[i + 1:], dt)
